@@ -88,7 +88,7 @@ def run(chk):
         r07_8(chk, sht)
     if chk.want("R07.10"):
         r07_9(chk, sht, K)
-    chk.assume("the nphi rounding loop (data-dependent while), Gauss-Legendre nodes/weights and floating-point exactness are not decided")
+    chk.assume("Gauss-Legendre nodes/weights and floating-point exactness are not decided; of the nphi rounding helper only 'result >= request' is decided")
     chk.assume("loops are taken to execute at least zero times with hi >= lo (closed-form summation of running counters)")
     chk.assume("scipy fft/ifft with the same norm are mutual inverses (library contract)")
 
@@ -584,6 +584,27 @@ def r07_7(chk, sht):
     ar1 = P.atom(("call", P.name("numpy.arange"), (nphi,)))
     chk.ob("R07.7", SHT, "SHT.__init__", "phi = arange(nphi) * 2 pi / nphi", phi is not None and
            (phi == ar * 2 * PI / nphi or phi == ar1 * 2 * PI / nphi), found=str(phi))
+    # default nphi: helper(2 L + 1) with a helper that never returns less than it is asked for  =>  nphi >= 2 L + 1
+    nst = [e for e in ev.events if e.kind == "store" and e.target.key() == "self.nphi" and any("nphi" in c.key() and pol for c, pol in e.guards)]
+    if nst:
+        from ..lowerbound import returns_at_least_argument
+        va = nst[0].value.as_atom()
+        lmp = ev.param_names[1]
+        arg_ok = bool(va and va[0] == "call" and len(va[2]) == 1 and (va[2][0] == 2 * P.name(lmp) + 1 or va[2][0] == 2 * P.atom(("attr", P.name("self"), "lmax")) + 1))
+        hname = call_name(va).split(".")[-1] if va and va[0] == "call" and call_name(va) else None
+        if va and va[0] == "call" and hname in sht.funcs:
+            verdict, detail = returns_at_least_argument(sht.funcs[hname], {k: v for k, v in sht.funcs.items() if "." not in k})
+            chk.saw(SHT, hname)
+            if verdict is None:
+                raise AnalysisError(f"{SHT}:{hname}: 'result >= argument' is outside the decidable fragment: {detail}")
+            chk.ob("R07.7", SHT, hname, "the FFT-length helper only rounds up: every return is at least the requested length "
+                   "(abstract interpretation of the helper, sa/lowerbound.py), so the default nphi >= 2 lmax + 1 and no order |m| <= lmax aliases",
+                   verdict, node=sht.funcs[hname], fingerprint="nphi-roundup", expected="result >= n on every path", found=detail[:3])
+            chk.ob("R07.7", SHT, "SHT.__init__", "the helper is asked for 2 lmax + 1 longitudes", arg_ok, fingerprint="nphi-request", found=str(nst[0].value)[:100])
+        elif va is not None and (nst[0].value == 2 * P.name(lmp) + 1):
+            chk.ob("R07.7", SHT, "SHT.__init__", "the default nphi is 2 lmax + 1", True, fingerprint="nphi-request")
+        else:
+            raise AnalysisError(f"{SHT}:SHT.__init__: the default nphi is not a call of a module-level helper: {str(nst[0].value)[:100]}")
     # ntheta: chain of non-decreasing roundings starting from lmax + 1
     ok = False
     cur = ntheta
